@@ -622,3 +622,67 @@ def rule_arch_siblings(chk, P, rid, floor=60):
             oc = sorted('%s x%d' % (k, v) for k, v in (other[1][0] - ft[0]).items()) + sorted('%s x%d' % (k, v) for k, v in (other[1][1] - ft[1]).items())
             r.bad('%s:%s@%s' % (st, m.name, _os.path.basename(m.loc.split(':')[0])), m.loc, '%s differs from its sibling %s: only here %s; only there %s' % (
                 m.name, other[0].name, dc[:4] or '-', oc[:4] or '-'))
+
+
+# ------------------------------------------------------------------------------------------------------------------------------
+# X7: numbered parallel variables (a1/a2, b1/b2, pBufferIn1..4, ctx1/ctx2): a statement stays within its own index
+
+_NUMVAR = re.compile(r'^([A-Za-z_]\w*?)(\d)$')
+LANE_SUFFIX_EXCEPT = {
+    ('S2_box_2', 'x'): 'the two outputs are extracted from one packed result m1 (elements 0 and 1)',
+    ('snow3gStateInitialize_1', 'FSM'): 'FSM register R3 takes the S2 box output of R2 (the SNOW3G FSM update itself)',
+}
+
+
+def rule_lane_suffix(chk, P, rid, floor=60):
+    r = chk.rule(rid, 'in a function that keeps parallel numbered variables (a1/a2, b1/b2, pBufferIn1..4) a statement that updates a variable of index i '
+                      'reads numbered variables of index i only; moving a whole lane (`x1 = x2`) is the one accepted cross-index form', floor=floor)
+    seen = set()
+    for tu in P.tus():
+        for f in P.funcs(tu):
+            if (f.name, f.loc) in seen:
+                continue
+            seen.add((f.name, f.loc))
+            names = set(p['name'] for p in (f.raw.get('params') or []))
+            for _, _, ev in f.events(('decl',)):
+                for d in ev['d']:
+                    names.add(d['n'])
+            fam = {}
+            for n in names:
+                m = _NUMVAR.match(n)
+                if m:
+                    fam.setdefault(m.group(1), set()).add(int(m.group(2)))
+            fams = {k for k, v in fam.items() if len(v) >= 2}
+            if not fams:
+                continue
+            for b, i, ev in f.events(('assign',)):
+                br = cf.base_ref(ev['lhs'])
+                if br is None:
+                    continue
+                m = _NUMVAR.match(br['n'])
+                if not m or m.group(1) not in fams:
+                    continue
+                li = int(m.group(2))
+                rfam = set()
+                ridx = set()
+                for nd in cf.walk(ev.get('rhs') or {}):
+                    if nd.get('k') == 'ref':
+                        m2 = _NUMVAR.match(nd['n'])
+                        if m2 and m2.group(1) in fams:
+                            ridx.add(int(m2.group(2)))
+                            rfam.add(m2.group(1))
+                if not ridx:
+                    continue
+                key = '%s@%s' % (f.name, ev['loc'].split('/')[-1])
+                if li in ridx or len(ridx) != 1:
+                    r.ok(key)
+                    continue
+                if ev.get('op') in (None, '=') and rfam == {m.group(1)}:
+                    r.ok(key, 'lane move')
+                    continue
+                why = LANE_SUFFIX_EXCEPT.get((f.name, m.group(1)))
+                if why:
+                    r.ok(key, why)
+                    continue
+                r.bad(key, ev['loc'], '%s: `%s %s %s` updates index %d from variables of index %d only' % (
+                    f.name, guards.lv(ev['lhs']), ev.get('op') or '=', guards.lv(ev.get('rhs') or {}), li, next(iter(ridx))))
